@@ -97,10 +97,11 @@ CLAIMS = {
     },
     "C20": {
         "text": "Theorems over the index state machine for arbitrary fetch/extract/format (10, closed under the global context): the invariant (cache coherent, path index = index of "
-                "the working tree, stacked states fetched) holds initially, is preserved by every operation and hence in every reachable state of any history; get_python_object hands "
-                "out extract(working); pop restores the stacked copy (and the original working tree under the self-fetch identity); the same update twice is idempotent under H_refetch; "
-                "every looked-up object sits at its recorded position of the current working tree. The unrepaired machine is refuted by witness (F12, now fixed in /repo). Open finding F23: "
-                "the self-fetch identity fails in the library for .multiple definitions coming from format().",
+                "the working tree, stacked states re-index without raising) holds initially, is preserved by every operation and hence in every reachable state of any history; "
+                "get_python_object hands out extract(working); after a push, any balanced history and the matching pop the working tree is the working tree at the push and the stack "
+                "is as before (no hypothesis on the library); push/pop/set_state never raise half-way in a state satisfying the invariant; the same update twice is idempotent under "
+                "H_refetch; every looked-up object sits at its recorded position of the current working tree. The machine with the unrepaired pop_state is refuted by witness (F12, "
+                "fixed in /repo); F23 (push_state/set_state copied by self-fetch) is fixed in /repo d2d0b2d and its witnesses are corpus cases.",
         "note": "Trusted: Coq kernel, extraction, driver, harness, hand-written model of interface.index (state, stack, cache, path index, merge/update/delete logic). fetch/extract/format/"
                 "parse are oracles replayed from the recorded real calls by content; identity is observed as positions. GUI text/style/menu indices not modelled.",
     },
